@@ -281,11 +281,55 @@ class DictReader:
                 # Make sure to always use the correct odml format attribute name
                 doc_attrs[odmlfmt.Document.map(attr)] = self.parsed_doc[i]
 
-        doc = odmlfmt.Document.create(**doc_attrs)
+        doc = self._create_document(doc_attrs)
         for sec in doc_secs:
-            doc.append(sec)
+            # e.g. a Section with the name of one of its siblings cannot be added
+            try:
+                doc.append(sec)
+            except Exception as exc:
+                self.error("Section not added to the Document (%s)\n  %s" % (sec.name, str(exc)))
 
         return doc
+
+    def _create_document(self, doc_attrs):
+        """
+        Creates the Document from the parsed attributes. An attribute the Document
+        does not accept (e.g. an unparsable date or id) is an error; when errors are
+        ignored, the Document is created without the attributes it does not accept.
+
+        :param doc_attrs: dictionary of Document attributes.
+        :returns: odml.Document
+        """
+        try:
+            return odmlfmt.Document.create(**doc_attrs)
+        except Exception as exc:
+            self.error("Document not created (%s)\n  %s" % (doc_attrs, str(exc)))
+
+        valid_attrs = {}
+        for key, val in doc_attrs.items():
+            try:
+                odmlfmt.Document.create(**{key: val})
+                valid_attrs[key] = val
+            except Exception:
+                pass
+
+        return odmlfmt.Document.create(**valid_attrs)
+
+    def _check_name(self, content):
+        """
+        A name read from YAML or JSON may be a number or a boolean; odML names are text.
+
+        :param content: the parsed content of a name attribute.
+        :returns: the name as text; other content is handed on unchanged.
+        """
+        if isinstance(content, (bool, int, float)):
+            return str(content)
+
+        if content is not None and not isinstance(content, str):
+            self.error("Invalid name '%s'" % str(content))
+            return None
+
+        return content
 
     def parse_sections(self, section_list):
         """
@@ -314,6 +358,8 @@ class DictReader:
                     content = section[attr]
                     if attr.endswith("_cardinality"):
                         content = parse_cardinality(content)
+                    elif attr == "name":
+                        content = self._check_name(content)
 
                     # Make sure to always use the correct odml format attribute name
                     sec_attrs[odmlfmt.Section.map(attr)] = content
@@ -355,6 +401,8 @@ class DictReader:
                     # Now convert cardinality lists back to tuples.
                     if attr.endswith("_cardinality"):
                         content = parse_cardinality(content)
+                    elif attr == "name":
+                        content = self._check_name(content)
 
                     # Make sure to always use the correct odml format attribute name
                     prop_attrs[odmlfmt.Property.map(attr)] = content
